@@ -72,7 +72,7 @@ func genStr(r *Rng, maxLen int, pSpecial int) []byte {
 	return b
 }
 
-var namePool = []string{"name", "ip", "zone", "a", "B", "k.x", "n-1"}
+var namePool = []string{"name", "ip", "zone", "a", "B", "k.x", "n-1", "A", "Name"} // names that differ only in case are different names
 
 type kv struct{ k, v string }
 
@@ -590,10 +590,13 @@ func countConds(e *lql.Expression) (n int, fn bool) {
 
 var ops = []string{"=", "!=", "<", ">", "<=", ">=", "LIKE", "like", "Like", "CONTAINS", "contains", "PREFIX", "prefix", "SUFFIX", "suffix"}
 var likePats = []string{"a*", "*", "?b*", "[a-c]*", "*x", "a?c", "\"[\"", "\"a[\"", "\"[]a\"", "\"[a-\"", "\"\\\\\"", "\"*[\"", "'['"}
-var valPool = []string{"a", "abc", "b", "ab", "x", "A", "\"\"", "\"a b\"", "1", "10", "\"A\"", "bc", "'a'"}
+var valPool = []string{"a", "abc", "b", "ab", "x", "A", "\"\"", "\"a b\"", "1", "10", "\"A\"", "bc", "'a'", "9", "2", "aB", "abd", "\"\\xff\""}
 
 func genIdent(r *Rng, depth int) string {
 	n := namePool[r.Intn(4)]
+	if r.Chance(1, 8) {
+		n = r.PickStr("A", "Name", "NAME", "B") // the case of a name matters
+	}
 	if depth < 2 && r.Chance(1, 4) {
 		f := r.PickStr("upper", "UPPER", "lower", "Lower")
 		if r.Chance(1, 20) {
@@ -1046,6 +1049,26 @@ func restartOracle(cs *Case, dir string, texts []string, calls []callRes, ids ma
 			return "restart:done"
 		}
 	}
+	// once more: the first restart saved the index it had loaded (Init ends with saveStateUnsafe); loading that again
+	// must give the same partitions
+	svc3 := tindex.NewInmemServiceWithConfig(tindex.InMemConfig{WorkingDir: dir})
+	reflect.ValueOf(svc3).Elem().FieldByName("Journals").Set(reflect.ValueOf(noJournals{}))
+	var ierr3 error
+	func() {
+		defer guard("tindex.Init", dir)
+		ierr3 = svc3.(interface{ Init(context.Context) error }).Init(context.Background())
+	}()
+	if ierr3 != nil {
+		set(&Violation{Class: "identity-restart-failed", Detail: fmt.Sprintf("after the history %s and one restart the index file cannot be loaded again: %v", showTexts(texts), ierr3)})
+		return "restart:done"
+	}
+	for src, id := range ids {
+		ts, err := svc3.GetJournalTags(src, false)
+		if err != nil || mapKey(tag.VC08TagMap(ts)) != mapKey(partMaps[id]) {
+			set(&Violation{Class: "identity-tags-changed-by-restart", Detail: fmt.Sprintf("history %s: partition %d after a second restart (err %v)", showTexts(texts), id, err)})
+			return "restart:done"
+		}
+	}
 	return "restart:done"
 }
 
@@ -1404,9 +1427,10 @@ func sortedKeys2(m map[string]map[string]string) []string {
 	return ks
 }
 
-// mkLimit: a query merges at most 50 partitions (cursor.newCursor -> partition.GetJournals(.., 50)). n partitions
-// {lim=1, i=<k>}; SELECT FROM lim=1 must return one event of every one of them or fail -- never a silent subset --
-// and must succeed below the limit; {tags} and SHOW PARTITIONS have no such limit
+// mkLimit: a query merges at most 50 partitions (cursor.newCursor -> partition.GetJournals(.., 50): the visit adds the
+// journal and fails when len(res) > maxLimit). n partitions {lim=1, i=<k>}; SELECT FROM lim=1 must return one event of
+// every one of them or fail -- never a silent subset: exactly 50 are served, 51 are refused (the earlier comparison
+// len(res) == maxLimit refused exactly 50: class e2e-select-limit-off-by-one); SHOW PARTITIONS has no such limit
 func mkLimit(rp Replay) (*Case, error) {
 	srv, err := StartServer(ServerOpts{})
 	if err != nil {
@@ -2052,6 +2076,19 @@ func corpus() []Replay {
 		{Kind: "hist", Texts: bs(`b=1,a="x}"`, `a=x},b=1`, `b=1,a=x`, `z="x}"`, `z=x}`, `{z=x}`, `z=x`), Sources: []string{"", `{a=x}`, `{z=x}`}, Restart: true},
 		// a value with a line feed: its line is a quoted literal; the raw spelling denotes the same set
 		{Kind: "hist", Texts: bs("a=\"new\\nline\",b=c", "b=c,a=new\nline", "a=\"new\\nline\"", "a=new\nline"), Sources: []string{"", `{b=c}`}, Restart: true},
+		// names and values that differ only in the case of a letter are different; a name given twice: the later value counts
+		{Kind: "hist", Texts: bs(`name=app`, `Name=app`, `name=App`, `NAME=app`, `name=app`, `name=x,name=app`, `name=app,name=x`, `name=x`),
+			Sources: []string{`{name=app}`, `{Name=app}`, `name=app`, `Name=app`, `upper(name)=APP`, `lower(name)=app`, `name like "[aA]pp"`}, Restart: true},
+		// texts that denote no set: empty, blanks, empty braces; a lone pair with the empty value is a set
+		{Kind: "hist", Texts: bs(``, ` `, `{}`, `{ }`, `a=`, `{a=}`, `a=""`, `=1`), Sources: []string{"", `{a=""}`, `a=""`}, Restart: true},
+		// 130 partitions (more than the visit's initial buffer of 100), sources that select one, a range and all of them
+		func() Replay {
+			var ts []string
+			for i := 0; i < 130; i++ {
+				ts = append(ts, fmt.Sprintf("i=%03d,g=%d", i, i%2))
+			}
+			return Replay{Kind: "hist", Texts: bs(ts...), Sources: []string{"", `{i=007}`, `{g=1}`, `i >= "064" AND i < "070"`, `i > "128"`, `i <= "000"`, `NOT g=0`}, Restart: true}
+		}(),
 		// FROM {k=""}: a missing tag is not a tag with the empty value
 		{Kind: "hist", Texts: bs(`name=app1`, `name=app2,zone=""`, `name=app3,zone=z`), Sources: []string{`{zone=""}`, `{rack=""}`, `{name=app2,zone=""}`, `{zone=z}`}, Restart: true},
 		{Kind: "hist", Texts: bs(`name=app1,ip=1`, `{ ip = "1" , name=app1 }`, `ip=1,name=app1`, `ip=2,name=app1`, `name=app1`),
@@ -2148,7 +2185,7 @@ func main() {
 				if r.Chance(1, 2) {
 					// values the expression pools can hit
 					for j := range ps {
-						ps[j].v = r.PickStr("a", "abc", "ABC", "ab", "b", "", "x", "a b", "10", "1", "A")
+						ps[j].v = r.PickStr("a", "abc", "ABC", "ab", "b", "", "x", "a b", "10", "1", "A", "9", "2", "aB", "abd", "\xff", "a\x00")
 					}
 				}
 				sets = append(sets, ps)
